@@ -299,11 +299,13 @@ def r5_to_flatbuffer(ctx):
     # skipping 0 is harmless (0 is the flatbuffer default of quantizedDimension)
     ctx.check(R, all(defuse.norm(g.test) in (f'{ti}.quant_params.quantized_dimension is not None', f'{ti}.quant_params.quantized_dimension') for g in guards), n, f, 'guard',
               'the dimension may only be skipped when it is None or 0 (the flatbuffer default)')
-  ctx.check(R, 'tensor.quantization' in stores and defuse.norm(stores['tensor.quantization'].value) == q, br[0], f, 'tensor.quantization', 'the parameters object must be attached to the tensor')
-  ty = stores.get('tensor.type')
-  ctx.check(R, ty is not None and defuse.norm(ty.value) == f'quant_params_to_tflite_type({ti}.quant_params.num_bits)', br[0], f, 'tensor.type', 'the tensor dtype must follow the parameter width')
-  t = [n for n in common.walk_no_nested(f.node) if isinstance(n, ast.Assign) and ast.unparse(n.targets[0]) == 'tensor']
-  ctx.check(R, len(t) == 1 and defuse.norm(t[0].value) == f'{ti}.subgraph.tensors[{ti}.tensor_id]', f.node, f, 'tensor', 'the annotated tensor must be the instruction\'s tensor')
+  inl = defuse.Inliner(ctx.repo, max_depth=0)
+  own = f'{ti}.subgraph.tensors[{ti}.tensor_id]'
+  by_target = {defuse.norm(inl.inline(f, n.targets[0])): n for n in stores.values()}
+  qs = by_target.get(f'{own}.quantization')
+  ctx.check(R, qs is not None and defuse.norm(qs.value) == q, br[0], f, 'tensor.quantization', 'the parameters object must be attached to the instruction\'s own tensor')
+  ty = by_target.get(f'{own}.type')
+  ctx.check(R, ty is not None and defuse.norm(ty.value) == f'quant_params_to_tflite_type({ti}.quant_params.num_bits)', br[0], f, 'tensor.type', 'the dtype of the instruction\'s own tensor must follow the parameter width')
 
 
 def r6_same_scale_helpers(ctx):
